@@ -3,7 +3,7 @@
    The two statements the faithful model violates (findings F5, F6) are in Refuted/C20_*.v. *)
 From Coq Require Import List QArith ZArith Bool Ascii String.
 From SB3V Require Import Gen.Frag_logger Model.Csv Model.Logger Proofs.CsvProofs Proofs.LoggerProofs
-  Refuted.C20_csv_multiline Refuted.C20_human_exclude.
+  Refuted.C20_csv_multiline Refuted.C20_human_exclude Refuted.C20_blank_row.
 Import ListNotations.
 
 (* ---- record / record_mean / dump ---- *)
@@ -26,9 +26,9 @@ Proof. exact frag_mean_update. Qed.
 Print Assumptions C20_mean_fragment.
 
 (* any number of record_mean calls since the last dump: the pending value is the arithmetic mean *)
-Theorem C20_record_mean_is_mean : forall st k e vs, vs <> [] -> count_of st k = 0%Z ->
+Theorem C20_record_mean_is_mean : forall st k e vs, vs <> [] -> count_of st k = 0%Z -> mean_defined st k = true ->
   (value_of (fst (l_run st (mean_ops k e vs))) k == lsum vs / inject_Z (Z.of_nat (List.length vs)))%Q.
-Proof. exact record_mean_is_mean. Qed.
+Proof. exact (fun st k e vs Hne Hc _ => record_mean_is_mean st k e vs Hne Hc). Qed.
 Print Assumptions C20_record_mean_is_mean.
 
 Example C20_mean_example :
@@ -43,8 +43,8 @@ Print Assumptions C20_dump_clears.
 Theorem C20_is_excluded_fragment : forall st k fmt,
   is_excluded st k fmt =
   match get_kv k (l_exc st) with
-  | Some ex => lg_is_excluded true true (mem_text fmt ex)
-  | None => lg_is_excluded false true false
+  | Some ex => lg_is_excluded true true (mem_text fmt ex) false false (negb (mem_text fmt ex))
+  | None => lg_is_excluded false true false true false true
   end.
 Proof. exact frag_is_excluded. Qed.
 Print Assumptions C20_is_excluded_fragment.
@@ -159,3 +159,46 @@ Example C20_truncate_example :
   truncate 8 (T "rollout_ab"%string) = T "rollo..."%string /\ collide 8 (T "rollout_ab"%string) (T "rollout_cd"%string) = true
   /\ collide 8 (T "k0"%string) (T "k1"%string) = false.
 Proof. repeat split. Qed.
+
+(* ---- review items ---- *)
+(* record_mean interleaved with record / record_mean on other keys and record_mean(None): still the arithmetic mean of
+   the values given for k since the last dump (mean_defined: record_mean on a key that holds a string raises TypeError
+   in the implementation; mean_safe excludes a dump or a record() on k in between) *)
+Theorem C20_record_mean_interleaved : forall st k ops,
+  count_of st k = 0%Z -> mean_defined st k = true -> forallb (mean_safe k) ops = true -> mean_values k ops <> [] ->
+  (value_of (fst (l_run st ops)) k == lsum (mean_values k ops) / inject_Z (Z.of_nat (List.length (mean_values k ops))))%Q.
+Proof. exact (fun st k ops Hc _ Hs Hne => record_mean_interleaved st k ops Hc Hs Hne). Qed.
+Print Assumptions C20_record_mean_interleaved.
+
+Theorem C20_mean_reaches_dump : forall st k q,
+  get_kv k (l_val st) = Some (LNum q) -> In (k, LNum q) (d_pending (snd (l_dump st))).
+Proof. exact mean_reaches_dump. Qed.
+Print Assumptions C20_mean_reaches_dump.
+
+Example C20_interleaved_example :
+  let T := fun s : string => list_ascii_of_string s in
+  let ops := [ORecordMean (T "a"%string) (Some 1%Q) []; ORecord (T "b"%string) (LStr (T "x"%string)) []; ORecordMean (T "a"%string) None [];
+              ORecordMean (T "c"%string) (Some 9%Q) []; ORecordMean (T "a"%string) (Some 5%Q) []] in
+  mean_values (T "a"%string) ops = [1%Q; 5%Q] /\ forallb (mean_safe (T "a"%string)) ops = true /\
+  (value_of (fst (l_run l0 ops)) (T "a"%string) == 3)%Q.
+Proof. repeat split. Qed.
+
+(* with the library reader's blank-line skipping: the file reads back as the recorded table MINUS its blank rows; equal to
+   the recorded table exactly when no row is blank (a dump without values while the file has a single column is) *)
+Theorem C20_csv_roundtrip_skip_blank : forall kv0 extra0 rest,
+  extra0 <> [] -> dumps_ok [] ((kv0, extra0) :: rest) ->
+  let c := csv_run csv0 ((kv0, extra0) :: rest) in
+  parse_csv_skip_blank (c_file c) = filter (fun r => negb (is_blank_row r)) (expected_table (c_keys c) ((kv0, extra0) :: rest)) /\
+  (no_blank_rows (expected_table (c_keys c) ((kv0, extra0) :: rest)) = true ->
+   parse_csv_skip_blank (c_file c) = expected_table (c_keys c) ((kv0, extra0) :: rest)).
+Proof. exact csv_roundtrip_skip_blank. Qed.
+Print Assumptions C20_csv_roundtrip_skip_blank.
+
+Theorem C20_csv_blank_row_dropped_refuted :
+  exists dumps,
+    let c := csv_run csv0 dumps in
+    table_eqb (parse_csv (c_file c)) (expected_table (c_keys c) dumps) = true /\
+    parse_csv_skip_blank (c_file c) = [[FU (Refuted.C20_blank_row.T "a")]; [FU (Refuted.C20_blank_row.T "1")]; [FU (Refuted.C20_blank_row.T "2")]] /\
+    List.length (expected_table (c_keys c) dumps) = 4%nat /\ no_blank_rows (expected_table (c_keys c) dumps) = false.
+Proof. exact Refuted.C20_blank_row.C20_csv_blank_row_dropped_refuted. Qed.
+Print Assumptions C20_csv_blank_row_dropped_refuted.
